@@ -213,6 +213,17 @@ Section SinceSeek.
   Definition apply_to_file (since pos0 : Z) : option Z :=
     position_of (run since pos0).
 
+  (* apply_to_file(fd, destructive=False): a successful search seeks back to
+     where the file was (fd.seek(orig_offset)); the four give-up handlers seek
+     exactly as in the destructive case *)
+  Definition position_of_nd (pos0 : Z) (o : outcome) : option Z :=
+    match o with
+    | OkPos _ => Some pos0
+    | _ => position_of o
+    end.
+  Definition apply_to_file_nd (since pos0 : Z) : option Z :=
+    position_of_nd pos0 (run since pos0).
+
   (* the value apply_to_file returns: the position, except that a new offset
      equal to the file length is reported as None *)
   Definition retval_of (o : outcome) : option (option Z) :=
